@@ -29,6 +29,11 @@ pub static TREES: &[&str] = &[
     "pub use a::b;",
     "#[cfg(x)]\nuse a::b;",
     "pub(crate) use a::b;",
+    "pub(in crate::m) use a::c;",
+    "pub(super) use a::d;",
+    "pub(in super::super) use a::b::d;",
+    "pub(self) use a::e;",
+    "pub(in crate::m::n) use a::f;",
     "use a;",
     "use a::{self};",
     "use a::{self, b};",
@@ -164,7 +169,7 @@ impl Prop for C10 {
         "C10"
     }
     fn rule(&self) -> String {
-        "sequences of `use` declarations from a 60-tree catalogue (nested lists to depth 3, globs, self/super/crate, aliases, \
+        "sequences of `use` declarations from a 65-tree catalogue (nested lists to depth 3, globs, self/super/crate, aliases, \
          `as _`, raw identifiers, leading `::`, empty lists, duplicates, visibilities, attributes, doc and ordinary comments): \
          every single tree, every ordered pair (quick: over the first 30 trees; thorough: all), triples over the first 12 \
          (thorough 20), each also with a non-import item or a blank line between two members x imports_granularity (5) x \
@@ -234,7 +239,7 @@ impl Prop for C10 {
                     let small_pair = key.starts_with('p')
                         && !key.starts_with("pf")
                         && !key.starts_with("pb")
-                        && key[1..].split('.').all(|n| n.parse::<usize>().map_or(false, |n| n < 9))
+                        && key[1..].split('.').all(|n| n.parse::<usize>().map_or(false, |n| n < 14))
                         && cfg.kv.len() == 1;
                     if !(key.starts_with('s') || small_pair) {
                         continue;
